@@ -185,13 +185,25 @@ func c19MakeEntry(r *fw.Rng, e int, variant int) c19Entry {
 		p := gen.VarProfile{PSub: vp.PSub, PAmbig: 0.1}
 		qs := gen.MakeVariantMSA(r, ref, r.Range(1, 5), p).Rows
 		ts := gen.MakeVariantMSA(r, ref, r.Range(1, 8), p).Rows
+		measure8 := "snp"
+		if variant%3 == 2 {
+			// a query without any resolved site (its distance to every target is undefined), as the
+			// last row or in the middle, under a measure that has undefined values
+			measure8 = []string{"raw", "tn93"}[variant/3%2]
+			allN := gen.FastaRec{ID: "masked", Desc: "masked", Seq: strings.Repeat("N", W)}
+			if variant%2 == 0 || len(qs) < 2 {
+				qs = append(qs, allN)
+			} else {
+				qs = append(qs[:1], append([]gen.FastaRec{allN}, qs[1:]...)...)
+			}
+		}
 		qTxt, tTxt := gen.RenderFasta(qs, 0), gen.RenderFasta(ts, 0)
 		switch e {
 		case 8:
-			return c19Entry{name: "closest", argv: []string{"closest", "--query", "{q.fasta}", "--target", "{t.fasta}", "-o", "{out}", "-m", "snp"}, files: map[string]string{"q.fasta": qTxt, "t.fasta": tTxt},
+			return c19Entry{name: "closest -m " + measure8, argv: []string{"closest", "--query", "{q.fasta}", "--target", "{t.fasta}", "-o", "{out}", "-m", measure8}, files: map[string]string{"q.fasta": qTxt, "t.fasta": tTxt},
 				call: func(w io.Writer) error {
 					defer runtime.GOMAXPROCS(runtime.GOMAXPROCS(0))
-					return closest.Closest(strings.NewReader(qTxt), strings.NewReader(tTxt), "snp", w, 0)
+					return closest.Closest(strings.NewReader(qTxt), strings.NewReader(tTxt), measure8, w, 0)
 				}}
 		case 9:
 			return c19Entry{name: "closest -n", argv: []string{"closest", "--query", "{q.fasta}", "--target", "{t.fasta}", "-o", "{out}", "-n", "3"}, files: map[string]string{"q.fasta": qTxt, "t.fasta": tTxt},
